@@ -302,7 +302,8 @@ def run(chk, F, tier):
                   "test is has_syntax_errors) loses all of its syntax-error diagnostics" % sorted(src | detail), gp.loc(t[-1] if isinstance(t[-1], int) else None),
                   witness={"condition_sources": sorted(src), "is_empty_of": sorted(detail)},
                   sample={"rule": "R21e", "branch": nsw, "verdict": "tree lookup / get_errors().is_empty()"})
-    chk.floor("branches in get_file_parse_error", nsw, 2)
+    chk.check(nsw >= 2, "R21e", "shape", "get_file_parse_error no longer tests the tree lookup and the emptiness of get_errors() (%d branches): its result does "
+              "not come straight from the current tree's error list" % nsw, gp.loc())
     rets = []
     for blk in gp.blocks:
         for st in blk[1]:
